@@ -12,7 +12,7 @@ CFG = {
     "exhaustive": {"quick": True, "thorough": True},
     "rule": "exhaustive stream: every buffer over {a,b} up to 3 bytes (thorough 4) x every (start,size) window x "
             "(nested: every window of that window, buffers up to 2 / 3 bytes) x {shared, parents released} x every "
-            "cursor position x every single operation of the alphabet (all 26 operations with every small argument "
+            "cursor position x every single operation of the alphabet (all 25 operations with every small argument "
             "0..size+1 and usize::MAX, six tags over {a,b}); all operation PAIRS on buffers up to 1 byte (thorough 2, "
             "also nested); random stream: buffers up to 64 bytes over alphabets of 2/3/10 symbols, 1..40 operations drawn "
             "against the copy machine's current state (mostly in range, 10% out of range / usize::MAX), up to ~8 live "
@@ -38,7 +38,7 @@ LEVEL = {
     "technique": "Lean 4 refinement proof (forward simulation between a model of ParseBuffer{Rc<Vec>,start,end,ofs} with "
                  "explicit Rc counts and a copy-of-window machine) + exhaustive/random differential correspondence with the Rust code",
     "text": "Machine-checked proof, for every well-formed heap of buffers and views (any number of allocations, views of "
-            "views to any depth, any sharing pattern) and every finite sequence of the 26 operations with arbitrary "
+            "views to any depth, any sharing pattern) and every finite sequence of the 25 operations with arbitrary "
             "arguments, that the model of ParseBuffer/RestrictView/RestrictViewFrom/StreamBufferT returns exactly the "
             "outputs of a machine that keeps a private copy of each window with a relative cursor (view_refines_copy), that "
             "start <= ofs <= end <= |storage| is invariant (wf_preserved: no remaining()/slice/subtraction panic is "
